@@ -368,6 +368,13 @@ func (c *child) runSegment(s segment, lo, hi int) {
 			if pan {
 				c.violation("panic:"+site+":"+msgClass(m), fmt.Sprintf("handleOfferedContents (%s) panicked: %s at %s", s.Net, m, site), i, s.Kind, s.Net, body)
 			}
+			// the same bytes as the body of a stream served in answer to the node's own FINDCONTENT (read to its end, then
+			// unframed according to the version shared with the serving peer); the real transfer is the served-stream segment
+			from := c.env.advs[local%len(c.env.advs)].Self()
+			site, m, pan = guard(func() { _, _ = p.VerifDecodeUtpContent(from, body) })
+			if pan {
+				c.violation("panic:"+site+":"+msgClass(m), fmt.Sprintf("decodeUtpContent (%s) panicked: %s at %s", s.Net, m, site), i, s.Kind, s.Net, body)
+			}
 			c.done(s.Kind, s.Net, body)
 			if local%200 == 199 {
 				time.Sleep(30 * time.Millisecond) // let the network's content loop validate what was queued
@@ -584,6 +591,95 @@ func (c *child) runSegment(s segment, lo, hi int) {
 			c.count("startup_nodes_started_and_stopped_under_traffic", 1)
 			c.done(s.Kind, s.Net, []byte{byte(local), byte(local >> 8)})
 		}
+	case s.Kind == "late-answers":
+		// Well-formed answers to the node's own FINDCONTENT that arrive late, but inside the response timeout: one peer
+		// supplies the content, the others answer with (empty) ENR lists after delays spread over the whole timeout, i.e.
+		// before and long after the lookup has its result. The node uses discv5's default response timeout (700 ms), as in
+		// production. A worker that outlives its lookup and then reports its answer takes the process down.
+		n, err := c.env.hub.StartNode(pnode.NodeOpts{Key: pnode.NewKey(c.rng(s.Kind, s.Net, -1)), Addr: pnode.Addr4(10, 0, 8, 1, 9000), Network: ne.proto, Versions: []uint8{0, 1},
+			MaxUtp: 10, RespTimeout: 700 * time.Millisecond, VersionsTTL: time.Hour})
+		if err != nil {
+			c.count("late_answers_node_setup_failed", 1)
+			for i := lo; i < hi; i++ {
+				c.done(s.Kind, s.Net, []byte{byte(i)})
+			}
+			break
+		}
+		delays := []int{0, 100, 260, 350, 450, 600, 670}
+		var asked atomic.Int64
+		var curLocal atomic.Int64
+		var curContent atomic.Pointer[[]byte]
+		var lateDelivered atomic.Int64
+		emptyEnrs := []byte{portalwire.CONTENT, portalwire.ContentEnrsSelector, 4, 0, 0, 0}
+		for _, adv := range c.env.advs {
+			adv.OnTalk(string(ne.proto), func(from *enode.Node, addr *net.UDPAddr, msg []byte) []byte {
+				if len(msg) == 0 || msg[0] != portalwire.FINDCONTENT {
+					if len(msg) > 0 && msg[0] == portalwire.PING {
+						pb, _ := (&portalwire.Pong{EnrSeq: 1, PayloadType: 0, Payload: validPayload(rand.New(rand.NewSource(1)), 0)}).MarshalSSZ()
+						return append([]byte{portalwire.PONG}, pb...)
+					}
+					return nil
+				}
+				local := int(curLocal.Load())
+				k := int(asked.Add(1))
+				if k == 1 {
+					if local%3 == 1 {
+						time.Sleep(120 * time.Millisecond)
+					}
+					if b := curContent.Load(); b != nil {
+						return append([]byte{portalwire.CONTENT, portalwire.ContentRawSelector}, *b...)
+					}
+					return emptyEnrs
+				}
+				d := delays[(local+k)%len(delays)]
+				time.Sleep(time.Duration(d) * time.Millisecond)
+				if d >= 260 {
+					lateDelivered.Add(1)
+				}
+				return emptyEnrs
+			})
+			n.P.VerifTable().VerifAddFound(adv.Self(), true)
+		}
+		for i := lo; i < hi; i++ {
+			local := i - s.start
+			rng := c.rng(s.Kind, s.Net, local)
+			key := randBytes(rng, 33)
+			key[0] = map[string]byte{"history": 0x00, "beacon": 0x10, "state": 0x20}[s.Net]
+			content := randBytes(rng, 1+rng.Intn(200))
+			c.logCase(i, s.Kind, s.Net, key)
+			asked.Store(0)
+			curLocal.Store(int64(local))
+			curContent.Store(&content)
+			var got []byte
+			var lerr error
+			site, m, pan := guard(func() {
+				if local%2 == 0 {
+					got, _, lerr = n.P.ContentLookup(key, contentID(key))
+				} else {
+					var tr *portalwire.TraceContentResult
+					tr, lerr = n.P.TraceContentLookup(key, contentID(key))
+					if tr != nil {
+						got = []byte(tr.Content)
+					}
+				}
+			})
+			if pan {
+				c.violation("panic:"+site+":"+msgClass(m), fmt.Sprintf("content lookup panicked while well-formed answers were arriving late: %s at %s", m, site), i, s.Kind, s.Net, key)
+			}
+			if lerr == nil && len(got) > 0 {
+				c.count("late_answers_lookups_with_content", 1)
+			} else {
+				c.count("late_answers_lookups_without_content", 1)
+			}
+			// the late answers of this lookup arrive while the case is still the logged one
+			time.Sleep(750 * time.Millisecond)
+			c.done(s.Kind, s.Net, key)
+		}
+		c.count("late_answers_delivered_after_260ms_or_more", int(lateDelivered.Load()))
+		for _, adv := range c.env.advs {
+			adv.OnTalk(string(ne.proto), func(*enode.Node, *net.UDPAddr, []byte) []byte { return nil })
+		}
+		n.Stop()
 	case s.Kind == "wire-talkreq" || s.Kind == "wire-utp":
 		c.wireParallel(s, lo, hi, func(i, local int, adv *pnode.Adversary, rng *rand.Rand) []byte {
 			var msg []byte
@@ -799,6 +895,54 @@ func (c *child) runSegment(s segment, lo, hi int) {
 			return body
 		})
 		time.Sleep(300 * time.Millisecond)
+		c.liveness(s)
+	case s.Kind == "served-stream":
+		// the answer to the node's own FINDCONTENT announces a connection id that the peer really serves: the node
+		// dials, reads the stream to its end and has to make sense of a hostile body (the peers speak version 1, so the
+		// body is expected to carry a length prefix)
+		naddr := &net.UDPAddr{IP: ne.node.Self().IP(), Port: ne.node.Self().UDP()}
+		c.wireParallel(s, lo, hi, func(i, local int, adv *pnode.Adversary, rng *rand.Rand) []byte {
+			body := streamBody(rng, 1)
+			if len(body) == 0 && local%8 != 0 {
+				// a stream that ends without a byte keeps the node reading until its 15 s read timeout: a few of those are enough
+				body = append(hostilePrefix(rng), randBytes(rng, rng.Intn(12))...)
+			}
+			c.logCase(i, s.Kind, s.Net, body)
+			cid := adv.Utp.CidWithAddr(ne.node.Self(), naddr, false)
+			served := make(chan struct{})
+			go func() {
+				defer close(served)
+				ctx, cancel := context.WithTimeout(context.Background(), 10*time.Second)
+				defer cancel()
+				conn, err := adv.Utp.AcceptWithCid(ctx, cid)
+				if err != nil {
+					c.count("served_stream_accept_failed", 1)
+					return
+				}
+				wctx, wcancel := context.WithTimeout(context.Background(), 5*time.Second)
+				defer wcancel()
+				if _, err := conn.Write(wctx, body); err != nil {
+					c.count("served_stream_write_failed", 1)
+				} else {
+					c.count("served_stream_bodies_delivered", 1)
+				}
+				// the serving side's Close returns only when utp-go has wound the connection down, which takes its idle
+				// timeout (60 s) after an empty stream; that is the scripted peer's business, nobody waits for it
+				go conn.Close()
+			}()
+			resp := append([]byte{portalwire.CONTENT, portalwire.ContentConnIdSelector}, binary.BigEndian.AppendUint16(nil, cid.Send)...)
+			var perr error
+			site, m, pan := guard(func() { _, _, perr = p.VerifProcessContent(adv.Self(), resp) })
+			if pan {
+				c.violation("panic:"+site+":"+msgClass(m), fmt.Sprintf("processContent panicked on the body of a served uTP stream (%s): %s at %s", s.Net, m, site), i, s.Kind, s.Net, body)
+			} else if perr != nil {
+				c.count("served_stream_returned_error", 1)
+			} else {
+				c.count("served_stream_returned_content", 1)
+			}
+			<-served
+			return body
+		})
 		c.liveness(s)
 	case s.Kind == "findcontent-stored":
 		// FINDCONTENT for items the node really holds, around and above the one-packet limit, from senders with
